@@ -53,6 +53,30 @@ def merged_unknown_family(rng, tier):
                     c["sites"].append({"prov": "pfail", "env": "base", "literal_inputs": [("k", ("str", "v"))]})
                 c["check"] = False
                 cases.append(c)
+    # three and four merge layers (sibling imports [a, b] + root, chains root -> b -> a, both): the unknown lives in ONE layer
+    # only (deepest, middle or top), every other layer defines the object with other keys
+    for ui, unk in enumerate(unknowns):
+        for nl in (3, 4):
+            for where in range(nl):
+                for form in ("siblings", "chain"):
+                    names = ["l%d" % i for i in range(nl - 1)]          # deepest first
+                    envs = {}
+                    for i, n in enumerate(names):
+                        vals = [("cfg", ("obj", [("k%d" % i, ("str", "v%d" % i))] + ([("token", unk)] if where == i else [])))]
+                        imps = [(names[i - 1], True)] if (form == "chain" and i > 0) else []
+                        envs[n] = {"imports": imps, "values": vals}
+                    rimps = [(n, True) for n in names] if form == "siblings" else [(names[-1], True)]
+                    rvals = [("cfg", ("obj", [("own", ("num", "1"))] + ([("token", unk)] if where == nl - 1 else []))),
+                             ("v", ("open", "p", ("sym", [("name", "cfg")])))]
+                    envs["root"] = {"imports": rimps, "values": rvals}
+                    c = G.case_from_graph(envs, "root")
+                    c["provs"] = {"p": {"in": "always", "out": "always", "beh": "echo"},
+                                  "pfail": {"in": "always", "out": "always", "beh": "fail"}}
+                    c["sites"] = [{"prov": "p", "env": "root", "literal_inputs": None}]
+                    if ui == 1:
+                        c["sites"].append({"prov": "pfail", "env": names[where] if where < nl - 1 else "root", "literal_inputs": [("k", ("str", "v"))]})
+                    c["check"] = False
+                    cases.append(c)
     return cases
 
 
